@@ -42,7 +42,9 @@ ROOTS = {
                              "spaces": {"T": {"refs": {"tq": 1},
                                               "cells": {"tc": "lambda: i + 100 + c2()", "c2": "lambda: 7",
                                                         "tr": "lambda: tq + i"}}}}},
-            "refs": {"G": 5},
+            # model-level references of the same names as the space-level ones: the space-level ones win, in the
+            # instances too
+            "refs": {"G": 5, "r2": 1000, "tq": 2000},
             "inst": ["P[1]", "P(1)", "P(i=1)", "P[2]"], "same": [["P[1]", "P(1)", "P(i=1)"]],
             "probes": ["P[1].c()", "P[1].d(2)", "P[2].c()", "P[1].T.tc()", "P(i=1).d(0)", "P[1].n()", "P.n()", "P[1].T.tr()",
                        "P[1].T.tn"]},
